@@ -1253,6 +1253,42 @@ theorem spark_command_untrimmed (n : Nat) (noTruncate : Bool) (sortCols : Bytes)
     sparkCmd n noTruncate sortCols t k readErrors = tableCmd isortFn (akeys t.cols) (akeys t.rows) t k readErrors := by
   rcases h with h | h <;> simp [sparkCmd, h]
 
+/-- `writeHistoOutput`, `minSlice` and the footer calls of the five counting commands as the SOURCE spells them
+(regenerated on every run), next to what `histoShown` / `histoCmd` / `tableCmd` / `barsCmd` model: sort ALL groups, keep
+the first `count` (`minSlice`), show the rows with `count >= atLeast` on consecutive lines; footer 0 =
+`FWriteExtractorSummary(ext, counter.ParseErrors(), …)` with `(Groups: GroupCount)` resp. `(R: RowCount; C: ColumnCount)`
+resp. nothing – and `histoShown` does exactly that on a concrete counter (ties in `--sort value` come out by descending
+name; `--atleast` applies AFTER the cut). -/
+theorem histo_output_from_source :
+    Gen.C03.histoOutputBody = [
+      "{",
+      "items := counter.ItemsSortedBy(count, sorter)",
+      "line := 0",
+      "writer.UpdateTotal(counter.Total())",
+      "for _, match := range items {",
+      "count := match.Item.Count()",
+      "if count >= atLeast {",
+      "writer.WriteForLine(line, match.Name, count)",
+      "line++",
+      "}",
+      "}",
+      "}"] ∧
+    Gen.C03.minSliceBody = ["{", "if len(items) < count {", "return items", "}", "return items[:count]", "}"] ∧
+    Gen.C03.footerCalls = [
+      ("histo", ["helpers.FWriteExtractorSummary(ext, counter.ParseErrors(), fmt.Sprintf(\"(Groups: %s)\", color.Wrapi(color.BrightBlue, counter.GroupCount())))"]),
+      ("table", ["helpers.FWriteExtractorSummary(ext, counter.ParseErrors(), fmt.Sprintf(\"(R: %v; C: %v)\", color.Wrapi(color.Yellow, counter.RowCount()), color.Wrapi(color.BrightBlue, counter.ColumnCount())))"]),
+      ("heatmap", ["helpers.FWriteExtractorSummary(ext, counter.ParseErrors(), fmt.Sprintf(\"(R: %v; C: %v)\", color.Wrapi(color.Yellow, counter.RowCount()), color.Wrapi(color.BrightBlue, counter.ColumnCount())))"]),
+      ("spark", ["helpers.FWriteExtractorSummary(ext, counter.ParseErrors(), fmt.Sprintf(\"(R: %v; C: %v)\", color.Wrapi(color.Yellow, counter.RowCount()), color.Wrapi(color.BrightBlue, counter.ColumnCount())))"]),
+      ("bargraph", ["helpers.FWriteExtractorSummary(ext, counter.ParseErrors())"])] ∧
+    (let c := Counter.run [[97], [98], [98], [99], [99], [100, 0, 53]]
+     (histoShown isortFn (revLess nvValueAscLess) (akeys c.items) c 3 0).map (fun nv => (nv.name, nv.value)) =
+        [([100], 5), ([99], 2), ([98], 2)] ∧
+     (histoShown isortFn (revLess nvValueAscLess) (akeys c.items) c 3 3).map (fun nv => (nv.name, nv.value)) = [([100], 5)] ∧
+     (histoShown isortFn (revLess nvValueAscLess) (akeys c.items) c 0 0) = [] ∧
+     (histoShown isortFn nvNameLess (akeys c.items) c 9 2).map (·.name) = [[98], [99], [100]]) ∧
+    groupsPart 3 = ascii "(Groups: 3)" ∧ rcPart 2 10 = ascii "(R: 2; C: 10)" := by
+  refine ⟨by decide, by decide, rfl, by decide +kernel, by decide +kernel, by decide +kernel⟩
+
 /-! ### non-vacuity for the command-function theorems -/
 
 /-- samples `a`, `b`, `b`, `c NUL 3`, `x NUL y` (a parse error), `--num 2 --atleast 2 --all`, default `--sort value`:
